@@ -1,6 +1,9 @@
 package model
 
-import "strings"
+import (
+	"strings"
+	"unicode/utf8"
+)
 
 const metaChars = `\^$*+?()|[]{}`
 
@@ -9,8 +12,8 @@ const metaChars = `\^$*+?()|[]{}`
 // optional parts that are not trailing, unbalanced brackets, a '/' inside a
 // variable, more than one variable per '/'-free stretch, duplicate names).
 func Parse(text string) (p Pattern, ok bool) {
-	if text == "" || text[0] != '/' {
-		return p, false
+	if text == "" || text[0] != '/' || !utf8.ValidString(text) {
+		return p, false // patterns are texts: byte strings that are not UTF-8 are outside the grammar
 	}
 	i := 1
 	n := len(text)
